@@ -19,6 +19,9 @@ package eni
 //@ func Set.PeekAvailable
 //@   modifies nothing
 //@   ensures result == nil || (podID != "" && result.podID == podID) || (result.status == 1 && result.podID == "")
+//@   # a pod that already holds an address of the set gets that address again, not a second one
+//@   ensures podID != "" && (exists k netip.Addr :: k in s && s[k] != nil && s[k].podID == podID) ==> result != nil && result.podID == podID
+//@   loop 1 invariant forall k netip.Addr :: seen(k) ==> s[k].podID != podID
 
 //@ func Local.commit
 //@   requires l != nil && l.eni != nil
